@@ -4,6 +4,7 @@ import (
 	"bytes"
 	"context"
 	"errors"
+	"math"
 	"testing"
 	"testing/synctest"
 	"time"
@@ -83,7 +84,7 @@ func propJanitor(c *Case) {
 		sysLimit = 1 << 62
 		c.Class("unreached-sys-limit")
 	case 3:
-		countLimit = 1000
+		countLimit = []uint64{1000, math.MaxUint64, 1 << 63, math.MaxInt64}[c.Pick("huge-count-limit", 4)]
 		c.Class("unreached-count-limit")
 	}
 
